@@ -5,3 +5,4 @@ set -e
 export GOFLAGS=-mod=mod GOPROXY=off GOSUMDB=off GOTOOLCHAIN=local
 cd /repo && go build ./... 
 cd /verif && python3 -m vlib.selftest
+./tools/binding_selftest.py > /dev/null || { echo "binding self-test failed"; exit 2; }
